@@ -10,6 +10,9 @@ BUILT = {
  "C04": ("stateful property-based testing with per-step invariants and an integer reference model for the FFT adapters",
          "Same generated histories as C03; after every step the getters, the returned (in,out) tuple and the highest frame actually written (sentinel-filled buffers from the *_allocate helpers) are checked against the statement; FFT types additionally against an independently written integer block model. Exploration level.",
          "sentinel = NaN with a payload the resamplers never produce; buffers are allocated once from input/output_buffer_allocate and never grown"),
+ "C05": ("metamorphic / differential property-based testing: same input through two chunkings, variants or set_chunk_size schedules, explicit position-rounding tolerance model",
+         "Generated parameter sets and input streams run through two resamplers that differ in chunk size (1..4096), FixedIn/FixedOut(/InOut) variant or a mid-stream set_chunk_size schedule; the common prefix of the concatenated outputs is compared frame by frame (FFT variants bit-exactly; asynchronous ones within 8*(i+1)*ulp(idx_max)*slope, far below the 1e-3 effect of a lost, repeated or stale frame). Exploration level.",
+         "constant ratio; nearest-neighbour ties get one grid step"),
  "C09": ("stateful property-based testing with a counting global allocator as oracle",
          "Same generated histories; every process_into_buffer, setter, reset and getter call is bracketed by reads of a per-thread allocator counter (alloc, dealloc, realloc, alloc_zeroed); any traffic is a violation. Exploration level.",
          "allocator traffic is observed on the calling thread; rubato spawns no threads; `log` feature off"),
